@@ -9,7 +9,7 @@ DeleteSheet / SetSheetVisible / SetSheetName / MoveSheet, the template workbook)
 `Facts.MaxSheetNameLength`.  `ops` ranges over ALL finite histories of API calls,
 including rejected ones; `run init ops` is the state after the history on a `NewFile`.
 -/
-import XlModel.Lemmas.Sheets9
+import XlModel.Lemmas.Sheets10
 
 namespace XlModel.Props.C16
 open XlModel XlModel.Sheets
@@ -347,17 +347,19 @@ theorem rename_text_renames (a b : Name) (ha : isQuoted a = false) :
     adjustPart a b a = b ∧ adjustPart a b (quoted a) = quoted b :=
   ⟨adjustPart_renamed a b ha, adjustPart_renamed_quoted a b⟩
 
-/-- every other component is byte-identical — PARTIAL: for components that are unquoted and differ from
-the renamed name, or have the form `'x'` with `x` different from it.  The one excluded component
-is the lone apostrophe (`finding_rename_lone_quote`). -/
-theorem rename_text_other_identical_partial (a b part : Name) (h : Untouched a part) :
-    adjustPart a b part = part := adjustPart_untouched a b part h
+/-- every other component is byte-identical — PARTIAL only in excluding the lone apostrophe
+(`finding_rename_lone_quote`): any component, bare or quoted, whose name (without its quotes) differs
+from the renamed sheet comes out unchanged -/
+theorem rename_text_other_identical_partial (a b part : Name) (hne : part ≠ [quoteChar])
+    (hin : (if isQuoted part then unquote part else part) ≠ a) : adjustPart a b part = part :=
+  adjustPart_other_general a b part hne hin
 
-/-- a whole refers-to text none of whose components names the renamed sheet is byte-identical after
-SetSheetName (same exclusion) -/
+/-- a whole refers-to text none of whose components names the renamed sheet (or is the lone
+apostrophe) is byte-identical after SetSheetName -/
 theorem rename_text_untouched_partial (data a b : Name)
-    (h : ∀ cellRef ∈ parseRef data, ∀ rangeRef ∈ cellRef, ∀ part ∈ rangeRef, Untouched a part) :
-    adjustRange data a b = data := adjustRange_untouched data a b h
+    (h : ∀ cellRef ∈ parseRef data, ∀ rangeRef ∈ cellRef, ∀ part ∈ rangeRef,
+      part ≠ [quoteChar] ∧ (if isQuoted part then unquote part else part) ≠ a) :
+    adjustRange data a b = data := adjustRange_untouched_general data a b h
 
 /-- FINDING (open, harmless): a component consisting of a single apostrophe counts as "quoted", is
 trimmed to the empty string and quoted again: the text `'` becomes `''` on every rename -/
@@ -369,6 +371,77 @@ theorem finding_rename_lone_quote :
 theorem rename_text_example :
     adjustRange (bytesOf "'x.y'!$A$1,'my sheet'!$A$1:'my sheet'!$B$2,x.y!C3,x.yz!C3") (bytesOf "x.y") (bytesOf "a_n") =
       bytesOf "'a_n'!$A$1,'my sheet'!$A$1:'my sheet'!$B$2,a_n!C3,x.yz!C3" := by
+  decide +kernel
+
+/-! ## clause "the content of sheets not targeted by an operation is unchanged": frame theorem over the
+per-sheet content token; opened workbooks: every theorem from ANY consistent state -/
+
+/-- FRAME over any history: a sheet listed before and after the next call, which is neither the sheet
+SetCellInt names nor the target index of CopySheet, keeps its content token -/
+theorem content_frame_history (ops : List Op) (op : Op) (sh : Sheet) (hsh : sh ∈ (run init ops).sheets)
+    (hstay : sh.id ∈ (step (run init ops) op).1.sheets.map (·.id)) (hnt : ¬ Targets (run init ops) op sh) :
+    contentOf (step (run init ops) op).1 sh.id = contentOf (run init ops) sh.id := by
+  obtain ⟨hi, hp⟩ := consistent_any_history ops
+  exact content_frame _ op hi hp sh hsh hstay hnt
+
+/-- opened workbooks: nothing in the invariants or in the simulation depends on the NewFile template.
+From ANY state satisfying the list invariant, the bookkeeping invariant and "no orphans" (sheet ids
+in any order, with gaps; any rIds; any active tab inside the list; hidden sheets; defined names)
+every history keeps all three, refines the ordered-list model started at that state's list, never
+ends in gap / panic, and satisfies the frame property. -/
+theorem from_any_consistent_state (s : St) (hi : Sheets.Inv s) (hp : PB s) (hn : NO s) (ops : List Op) :
+    (Sheets.Inv (run s ops) ∧ PB (run s ops) ∧ NO (run s ops)) ∧
+    view (run s ops) = specRun (view s) ops ∧
+    (∀ op e, (step (run s ops) op).2 = some e → e ≠ Err.gap ∧ e ≠ Err.panic) := by
+  have h := run_all s ops hi hp hn
+  refine ⟨h, sim_run s ops hi hp, ?_⟩
+  intro op e he
+  have := step_not_bad _ op h.1 h.2.1 e he
+  exact ⟨fun h1 => this (Or.inl h1), fun h2 => this (Or.inr h2)⟩
+
+/-- a witness that such states exist beyond the template: an "opened" workbook whose sheet ids are out of
+order with gaps (7, 3, 12), rIds 9, 2, 5 among other relationships, the middle sheet hidden and
+active tab 2, a scoped defined name — it satisfies all three invariants -/
+def openedFixture : St :=
+  { count := 3, activeTab := 2
+    sheets := [⟨['D', 'a', 't', 'a'], 7, 9, .visible⟩, ⟨['q'], 3, 2, .hidden⟩, ⟨['Z'], 12, 5, .visible⟩]
+    sheetMap := [(['q'], 3), (['Z'], 12), (['D', 'a', 't', 'a'], 7)]
+    parts := [(12, ⟨true, 5⟩), (7, ⟨false, 0⟩), (3, ⟨false, 8⟩)]
+    pkg := [3, 7, 12], ctypes := [7, 3, 12]
+    rels := [⟨1, 0⟩, ⟨2, 3⟩, ⟨5, 12⟩, ⟨9, 7⟩, ⟨11, 0⟩]
+    defs := [⟨0, some 1, ['q', '!', 'A', '1']⟩], ssLoaded := true }
+
+theorem openedFixture_consistent : Sheets.Inv openedFixture ∧ PB openedFixture ∧ NO openedFixture := by
+  refine ⟨?_, ?_, ?_⟩
+  · unfold Sheets.Inv
+    exact { nonempty := by decide +kernel, count_eq := by decide +kernel, active_lt := by decide +kernel,
+            valid := by decide +kernel, uniq_ci := by decide +kernel, uniq_id := by decide +kernel,
+            some_vis := by decide +kernel, defs_ok := by decide +kernel }
+  · exact { rel_ok := by decide +kernel, map_ok := by decide +kernel, part_ok := by decide +kernel,
+            id_pos := by decide +kernel, rid_nodup := by decide +kernel, map_keys := by decide +kernel }
+  · exact { parts_sub := by
+              intro q hq
+              have : q ∈ openedFixture.parts.map (·.1) := by
+                unfold partGet? at hq
+                cases hf : openedFixture.parts.find? (fun e => e.1 == q) with
+                | none => rw [hf] at hq; cases hq
+                | some e =>
+                  have := find?_some_mem _ _ _ hf
+                  exact List.mem_map.mpr ⟨e, this.1, by simpa using this.2⟩
+              clear hq
+              revert this
+              revert q
+              decide +kernel
+            ct_sub := by decide +kernel, ct_sup := by decide +kernel, ct_nodup := by decide +kernel,
+            rel_sub := by decide +kernel, rel_nodup := by decide +kernel, pkg_sub := by decide +kernel,
+            pkg_sorted := by decide +kernel }
+
+/-- a history on the opened fixture: delete the active last sheet, create, move, rename; the new sheet
+gets id 8 (max of the remaining ids + 1) and rId 12 -/
+theorem openedFixture_history :
+    let s := run openedFixture [.delete ['Z'], .new ['n'], .move ['n'] ['q'], .rename ['q'] ['Q', '2']]
+    s.sheets.map (fun sh => (sh.name, sh.id, sh.rid)) = [(['D', 'a', 't', 'a'], 7, 9), (['n'], 8, 12), (['Q', '2'], 3, 2)] ∧
+    s.activeTab = 0 ∧ s.defs = [⟨0, some 2, ['Q', '2', '!', 'A', '1']⟩] := by
   decide +kernel
 
 /-! ## non-vacuity and regression witnesses (the histories of known_findings.d/C16.json) -/
